@@ -1243,6 +1243,13 @@ class Epoch(object):
         jj = k - o + n - 1
         # jj is the number of the day in the moslem year h. If jj > 354 we need
         # to know if h is a leap year
+        if jj < 1:
+            # The date belongs to the end of the previous moslem year, which
+            # started before January 1st: Count from the start of that year
+            h -= 1
+            cl = h % 30
+            dl = (11 * cl + 3) % 30
+            jj += 354 if dl < 19 else 355
         if jj > 354:
             cl = h % 30
             dl = (11 * cl + 3) % 30
